@@ -73,7 +73,12 @@ ASSUMPTIONS = [
     'only documented option syntax is generated: values in double quotes, '
     '\\" as the only escape, one from= / principals= / command= per line, '
     'distinct environment names per line, plain principal names',
-    'port 22 is passed as None (as asyncssh.connection does)']
+    'port 22 is passed as None (as asyncssh.connection does)',
+    'a host given as an address literal is looked up with that address or '
+    'an empty address, never with a different one',
+    'whether base64 text with foreign characters still is a key is not '
+    'judged: damaged fields are damaged for strict and lenient decoders '
+    'alike and derive from keys no other line uses']
 OUT_OF_REACH = ['X.509 certificate / subject entries',
                 'behaviour of sshd itself (no sshd available); ssh-keygen -F '
                 'is the only OpenSSH arbiter',
